@@ -84,6 +84,12 @@ func (p *c02) Init(tier string, seed int64) {
 			fmt.Sprintf("{%% include %s %%}", v), fmt.Sprintf("{%% extends %s %%}", v), fmt.Sprintf("{%% import %s as q %%}{{ q.m() }}", v), fmt.Sprintf("{%% use %s %%}", v),
 			fmt.Sprintf("{%% include ['inc', %s] %%}", v), fmt.Sprintf("{{ {(%s): 1}|keys|join }}{{ [%s, %s]|join(%s) }}{{ %s ? %s : %s }}{{ %s == %s }}{{ %s in [%s] }}{{ %s starts with %s }}{{ %s matches '/' ~ %s ~ '/' }}", v, v, v, v, v, v, v, v, v, v, v, v, v, v, v))
 	}
+	// ... and to every method of a struct, as the only argument and as one of two (null included: "nul")
+	for _, m := range []string{"ValueMethod", "PtrMethod", "Add", "Concat", "Variadic", "Join", "Fmt", "Two", "Nothing", "TakesPtr", "TakesIface", "TakesFloat", "TakesSlice", "TakesUint", "TakesInt8", "TakesUint8", "NilFunc", "Fn", "Name"} {
+		for _, v := range append(c02Vars(), "null", "nan", "inf", "big") {
+			p.hand = append(p.hand, fmt.Sprintf("{{ obj.%s(%s) }}{{ pt.%s(%s, %s) }}{{ obj.%s('x', 1, %s) }}", m, v, m, v, v, m, v))
+		}
+	}
 	p.handN = len(p.hand)
 }
 
@@ -288,6 +294,10 @@ func (p *c02) Run(i int) (res fw.Result) {
 			res.Fail("panic", fmt.Sprintf("c02:prog:%d:%d", p.seed, i), fmt.Sprintf("Execute panicked: %v", pan), map[string]interface{}{"twig_env": tw, "templates": src})
 		}
 		res.AddClass("program/" + okOrErr(err))
+		if err != nil && strings.HasPrefix(err.Error(), "parse:") {
+			// what kind of parse error the generator's programs run into (they are meant to parse)
+			res.AddClass("program-parse-error: " + errKind(err))
+		}
 		if steps > 3 {
 			kinds = mon.Kinds()
 			res.Sigs = append(res.Sigs, kindsSig(kinds)+"|"+errKind(err))
